@@ -645,6 +645,37 @@ def r9(ctx, facts):
         raise AnchorLost("expected three callers of perform_tablets_maintenance (new, new_updated, new_with_updated_topology), found %d" % n)
 
 
+def r10(ctx, facts):
+    r = ctx.rule("R10", "a node counts as re-created when its Node OBJECT changed (Arc::ptr_eq), not when it compares unequal (Node equality is by host id, which never changes)", floor=2)
+    from ..util import closure_family
+    b = facts.one(r"^scylla::cluster::state::ClusterState::perform_tablets_maintenance$")
+    fam = closure_family(facts, b)
+    NODE = "scylla::cluster::node::Node"
+    peq, veq = [], []
+    for body in fam:
+        for bb, c in body.calls():
+            if bb not in body.live_blocks:
+                continue
+            nm = (c.decl or c.name or "")
+            if nm.endswith("::ptr_eq") and any(a[0] in ("c", "m") and NODE in body.local_ty(a[1][0]) for a in c.args):
+                peq.append((body, c))
+            if nm.endswith(("PartialEq::eq", "PartialEq::ne")) and len(c.args) == 2 and all(a[0] in ("c", "m") and NODE in body.local_ty(a[1][0]) for a in c.args):
+                veq.append((body, c))
+    r.instance("recreated-by-identity", bool(peq), "perform_tablets_maintenance never compares the old and the new Node object by identity (Arc::ptr_eq): re-created nodes are not noticed "
+               "and tablet replicas keep pointing at the Node of the previous cluster state (whose pool may be gone or disabled)", b.span)
+    r.instance("not-by-value-equality", not veq, "old and new Node are compared with == / != : Node equality looks at the host id only, so the test never sees a re-created node",
+               veq[0][1].span if veq else b.span)
+    # the map handed to maintenance is filled only where the identity test said "different object"
+    from ..util import dj_of, in_set
+    for body, c in peq:
+        dj = dj_of(body, facts)
+        ins = [x for bb, x in body.calls() if bb in body.live_blocks and (x.name or "").endswith("HashMap::<K, V, S, A>::insert") and any("Arc<" + NODE in body.local_ty(a[1][0]) for a in x.args if a[0] in ("c", "m"))]
+        for x in ins:
+            sts = dj.states_at(x.bb)
+            ok = bool(sts) and all(in_set(st.get(("call", c.bb)), {0}) for st in sts)
+            r.instance("recreated-only-if-different-object", ok, "a node is recorded as re-created where Arc::ptr_eq(old, new) is not known to be false", x.span)
+
+
 def _places(rv):
     from ..util import _rv_places
     return _rv_places(rv)
@@ -657,7 +688,7 @@ def check(ctx):
         add = r1(ctx, facts)
     except AnchorLost as ex:
         ctx.rule("R1x", "anchors of r1").fail("anchor-lost", str(ex))
-    for fn in ((lambda c, f: r2(c, f, add)) if add else None, r3, r4, r5, r6, r7, r8, r9):
+    for fn in ((lambda c, f: r2(c, f, add)) if add else None, r3, r4, r5, r6, r7, r8, r9, r10):
         if fn is None:
             continue
         try:
